@@ -628,11 +628,16 @@ func (pc *parentController) syncParentObject(parent *unstructured.Unstructured) 
 	// If all revisions agree that they've finished finalizing,
 	// remove our finalizer.
 	if syncResult.Finalized {
+		hookGeneration := parent.GetGeneration()
 		updatedParent, err := pc.parentClient.Namespace(parent.GetNamespace()).RemoveFinalizer(parent, pc.finalizer.Name)
 		if err != nil {
 			return fmt.Errorf("can't remove finalizer for %v %v/%v: %w", parent.GetKind(), parent.GetNamespace(), parent.GetName(), err)
 		}
 		parent = updatedParent
+		// The status written below was computed from the parent the hooks were
+		// sent; its observedGeneration must not move to whatever the live
+		// object has become in the meantime.
+		parent.SetGeneration(hookGeneration)
 	}
 
 	// Enforce invariants between parent selector and child labels.
